@@ -768,6 +768,16 @@ impl Lowerer<'_, '_> {
     }
 
     fn drop(&mut self, val: mir::Place, ty: TyRef) {
+        // A zero-sized value has no storage, but dropping it can still be
+        // observable, see `call_clone_of`.
+        if self.layout_of(ty).is_some_and(|l| l.is_zero_sized()) {
+            if self.needs_drop(ty) {
+                let ptr = self.dangling_var(ty);
+                self.call_drop_of(ptr.into(), ty);
+            }
+            return;
+        }
+
         let Some(var) = self.location(val, ty) else {
             return;
         };
@@ -1145,6 +1155,14 @@ impl Lowerer<'_, '_> {
     fn dangling_pointer(&mut self, ty: TyRef) -> Operand {
         let align = self.layout_of(ty).map_or(1, |l| l.align());
         Operand::Value(crate::lir::IrValue::Pointer(align))
+    }
+
+    /// A variable holding a [`Self::dangling_pointer`]
+    pub(super) fn dangling_var(&mut self, ty: TyRef) -> Var {
+        let ptr = self.dangling_pointer(ty);
+        let tmp = self.new_tmp(IrType::Pointer);
+        self.emit_assign(tmp.clone(), ptr, IrType::Pointer);
+        tmp
     }
 
     fn lower_type(&mut self, ty: TyRef) -> Option<IrType> {
